@@ -39,6 +39,8 @@ struct Base {
   virtual void freq(const Line& t, Out& o) = 0;
   virtual Base* roundtrip(bool stream, Out& o) = 0;
   virtual Base* copy() = 0;
+  virtual void bulk(const Line& t) = 0;
+  virtual void rowcheck(const Line& t, Out& o) = 0;
 };
 
 template<class S, class T, class W>
@@ -114,6 +116,31 @@ struct Holder : Base {
     return res;
   }
   Base* copy() override { return new Holder(kind, s); }
+  // 20 r n base stride wmod: n updates, item i = base + i * stride (strings: "k<number>"), weight 1 + i % wmod   (family fibig)
+  static uint64_t nth_item(uint64_t v, uint64_t*) { return v; }
+  static std::string nth_item(uint64_t v, std::string*) { return "k" + std::to_string(v); }
+  void bulk(const Line& t) override {
+    uint64_t n = (uint64_t)t.at(2), base = (uint64_t)t.at(3), stride = (uint64_t)t.at(4), wmod = (uint64_t)t.at(5);
+    for (uint64_t i = 0; i < n; ++i) s.update(nth_item(base + i * stride, (T*)nullptr), (W)(1 + i % wmod));
+  }
+  // 21 r et has thr: every row of get_frequent_items must carry the bounds the point queries report for its item.
+  // R: number of rows, number of inconsistent rows, then (first inconsistent row only) item, row est lb ub, queried est lb ub
+  void rowcheck(const Line& t, Out& o) override {
+    frequent_items_error_type et = t.at(2) == 1 ? NO_FALSE_NEGATIVES : NO_FALSE_POSITIVES;
+    auto rows = t.at(3) != 0 ? s.get_frequent_items(et, (W)t.at(4)) : s.get_frequent_items(et);
+    size_t bad = 0; Enc first; I v[6] = {0, 0, 0, 0, 0, 0};
+    for (auto& r : rows) {
+      const T& x = r.get_item();
+      bool ok = r.get_estimate() == s.get_estimate(x) && r.get_lower_bound() == s.get_lower_bound(x) && r.get_upper_bound() == s.get_upper_bound(x);
+      if (!ok && bad++ == 0) {
+        first = enc(x);
+        v[0] = (I)r.get_estimate(); v[1] = (I)r.get_lower_bound(); v[2] = (I)r.get_upper_bound();
+        v[3] = (I)s.get_estimate(x); v[4] = (I)s.get_lower_bound(x); v[5] = (I)s.get_upper_bound(x);
+      }
+    }
+    o.R((I)rows.size()); o.R((I)bad);
+    if (bad) { put_item(o, first); for (I x : v) o.R(x); }
+  }
 };
 
 typedef frequent_items_sketch<uint64_t, uint64_t, MulHash> fi0;
@@ -146,6 +173,8 @@ static void handler(const Line& t, Out& o) {
   case 5: get(t.at(1)).dump(o); break;
   case 6: t.at(4); get(t.at(1)).freq(t, o); break;
   case 7: case 17: { Base* b = get(t.at(1)).roundtrip(t.at(0) == 17, o); regs[(long)t.at(2)].reset(b); break; }
+  case 20: get(t.at(1)).bulk(t); o.R(1); break;
+  case 21: get(t.at(1)).rowcheck(t, o); break;
   case 8: { Base* b = get(t.at(1)).copy(); regs[(long)t.at(2)].reset(b); o.R(1); break; }
   default: o.R(-2);
   }
